@@ -362,6 +362,12 @@ func (wf *Workflow) readyToRun(procs map[string]WorkflowProcess) bool {
 			return false
 		}
 	}
+	// A process that has replaced the sink as driver may have been taken out
+	// of procs (see reconnectDeadEndConnections), but it is run as well
+	if wf.driver != nil && wf.driver != WorkflowProcess(wf.sink) && !wf.driver.Ready() {
+		Error.Println(wf.name + ": Not everything connected. Workflow shutting down.")
+		return false
+	}
 	return true
 }
 
